@@ -1,8 +1,14 @@
 import UPVerif.Core.Sexp
 import UPVerif.Core.HashCons
+import UPVerif.Core.HashConsPaths
 /-! line-protocol handler for C16: runs one construction history through the model of the
     expression manager and prints, for every step, the node returned (as read right after the step)
-    and, at the end, every node of the table.  Nodes are named by the rank of their `node_id`. -/
+    and, at the end, every node of the table.  Nodes are named by the rank of their `node_id`.
+    Every step carries the PATH by which it is built: a bare constructor command is a call of the
+    `ExpressionManager` method, `(sc <cmd>)` the `unified_planning.shortcuts` function of the same
+    name, `(m <method> <receiver> <arg>…)` a method of FNode/Fluent/Parameter/Variable/Object called by
+    name, `(op <operator> <left> <right>)` / `(un <operator> <operand>)` a Python infix / prefix
+    operator, `(call <fluent> <arity> <copy> <arg>…)` the call of a Fluent object. -/
 namespace UPVerif.Drv.C16
 open UPVerif UPVerif.HashCons
 
@@ -61,6 +67,34 @@ def parseCmd : Sexp → Option Cmd
     some ⟨c, ← args.mapM parsePArg⟩
   | _ => none
 
+def methNames : List (String × Meth) := [
+  ("__add__", .add), ("__radd__", .radd), ("__sub__", .sub), ("__rsub__", .rsub),
+  ("__mul__", .mul), ("__rmul__", .rmul), ("__truediv__", .truediv), ("__rtruediv__", .rtruediv),
+  ("__floordiv__", .floordiv), ("__rfloordiv__", .rfloordiv),
+  ("__gt__", .gt), ("__ge__", .ge), ("__lt__", .lt), ("__le__", .le),
+  ("__pos__", .pos), ("__neg__", .neg), ("Equals", .equals),
+  ("And", .and_), ("__and__", .dand), ("__rand__", .rand),
+  ("Or", .or_), ("__or__", .dor), ("__ror__", .ror), ("Not", .not_), ("__invert__", .invert),
+  ("Xor", .xor), ("__xor__", .dxor), ("__rxor__", .rxor), ("Implies", .implies), ("Iff", .iff)]
+
+def infixNames : List (String × Infix) := [
+  ("add", .add), ("sub", .sub), ("mul", .mul), ("truediv", .truediv), ("floordiv", .floordiv),
+  ("lt", .lt), ("le", .le), ("gt", .gt), ("ge", .ge), ("and", .and_), ("or", .or_), ("xor", .xor)]
+
+def unaryNames : List (String × Unary) := [("invert", .invert), ("neg", .neg), ("pos", .pos)]
+
+def parsePCmd : Sexp → Option PCmd
+  | .list [.atom "sc", c] => (parseCmd c).map (fun c => ⟨.shortcut c.ctor, c.args⟩)
+  | .list (.atom "m" :: .atom name :: self :: args) => do
+    some ⟨.meth (← parseSArg self) (← methNames.lookup name), ← args.mapM parsePArg⟩
+  | .list [.atom "op", .atom name, l, r] => do
+    some ⟨.infix (← infixNames.lookup name), [← parsePArg l, ← parsePArg r]⟩
+  | .list [.atom "un", .atom name, x] => do
+    some ⟨.unary (← unaryNames.lookup name), [← parsePArg x]⟩
+  | .list (.atom "call" :: .atom k :: ar :: .atom _copy :: args) => do
+    some ⟨.call k (← ar.asNat?), ← args.mapM parsePArg⟩
+  | e => (parseCmd e).map (fun c => ⟨.em c.ctor, c.args⟩)
+
 def opName : Op → String
   | .boolC => "BOOL_CONSTANT" | .intC => "INT_CONSTANT" | .realC => "REAL_CONSTANT"
   | .fluent => "FLUENT_EXP" | .param => "PARAM_EXP" | .var => "VARIABLE_EXP" | .obj => "OBJECT_EXP"
@@ -91,10 +125,10 @@ def nodeOut (final : List FNode) (n : FNode) : Option (List Sexp) := do
   some [.atom (opName n.content.op), .list (as.map Sexp.ofNat), payloadOut n.content.payload]
 
 /-- run the history step by step, keeping the manager state observed right after each step -/
-def runSteps (m : Mgr) (rs : List Res) (acc : List (Mgr × Res)) : List Cmd → Option (Mgr × List (Mgr × Res))
+def runSteps (m : Mgr) (rs : List Res) (acc : List (Mgr × Res)) : List PCmd → Option (Mgr × List (Mgr × Res))
   | [] => some (m, acc.reverse)
   | c :: cs =>
-    match step m rs c with
+    match pstep m rs c with
     | none => none
     | some (m1, r) => runSteps m1 (rs ++ [r]) ((m1, r) :: acc) cs
 
@@ -111,7 +145,7 @@ def insertSorted (x : Nat × Sexp) : List (Nat × Sexp) → List (Nat × Sexp)
 
 def handle : Sexp → Sexp
   | .list (.atom "hist" :: cmds) =>
-    match cmds.mapM parseCmd with
+    match cmds.mapM parsePCmd with
     | none => .atom "bad-case"
     | some cs =>
       match runSteps Mgr.new [] [] cs with
